@@ -131,6 +131,7 @@ struct Gen<'a> {
     next: usize,
     heavy: bool,
     taken: Vec<String>,
+    pending_alias: Vec<(String, String)>,
 }
 
 impl Gen<'_> {
@@ -249,9 +250,14 @@ impl Gen<'_> {
             self.witness.push((name.clone(), v));
         }
         self.push(json!({"load": Self::ty_json(&t)}), vec![], names);
-        // the aliasing pair goes straight into a comparison: the arrays differ, whatever a
-        // packed comparison says
-        if let Some((a, b)) = alias {
+        // the aliasing pair goes straight into a comparison (emitted right after the loads have
+        // been published): the arrays differ, whatever a packed comparison says
+        if let Some(pair) = alias {
+            self.pending_alias.push(pair);
+        }
+    }
+    fn alias_comparisons(&mut self) {
+        for (a, b) in std::mem::take(&mut self.pending_alias) {
             match self.rng.below(4) {
                 0 => {
                     let o = self.fresh();
@@ -465,7 +471,7 @@ impl Gen<'_> {
 }
 
 pub fn gen_program(rng: &mut Prng, heavy: bool) -> (String, Vec<(String, WVal)>, Vec<(String, Ty)>) {
-    let mut g = Gen { rng, vars: vec![], instrs: vec![], witness: vec![], next: 0, heavy, taken: vec![] };
+    let mut g = Gen { rng, vars: vec![], instrs: vec![], witness: vec![], next: 0, heavy, taken: vec![], pending_alias: vec![] };
     // loads of a few types
     let n_loads = g.rng.range(1, 4);
     for _ in 0..n_loads {
@@ -485,6 +491,7 @@ pub fn gen_program(rng: &mut Prng, heavy: bool) -> (String, Vec<(String, WVal)>,
     // so that a Byzantine execution is judged on the loads the circuit binds
     let loaded: Vec<String> = g.vars.iter().map(|v| v.0.clone()).collect();
     g.push(json!("publish"), loaded, vec![]);
+    g.alias_comparisons();
     let n_steps = g.rng.range(1, 22);
     for _ in 0..n_steps {
         g.step();
@@ -971,6 +978,11 @@ fn run(s: &Scn, st: &mut Stats) -> Verdict {
                 Ok(Ok(p2)) => {
                     let e2 = ZkirRelation::format_instance(&p2).unwrap_or_default();
                     if e2 != bound {
+                        if std::env::var("ZKSIM_DEBUG_C18").is_ok() {
+                            let pos = e2.iter().zip(bound).position(|(a, b)| a != b);
+                            eprintln!("C18 debug: lens {} {} pos {:?} interp {:?} bound {:?}", e2.len(), bound.len(), pos, pos.map(|p| Fe(e2[p])), pos.map(|p| Fe(bound[p])));
+                            eprintln!("C18 debug: honest bound {:?}", honest.bound_plain.get(pos.unwrap_or(0)).map(|x| Fe(*x)));
+                        }
                         return Err(Viol::new(
                             "Unsound",
                             "Unsound:published-values",
